@@ -79,6 +79,8 @@ class InterpBase:
         self.calls = []
         self.objc = itertools.count(1)
         self.symc = itertools.count(1)
+        self.evc = itertools.count(1)      # order of logged stores / raises
+        self.handler_excs = []             # exception classes the enclosing handler bodies have caught (for a bare raise)
         self.obj_info = {}
         self.depth = 0
         self.where = []
@@ -123,7 +125,7 @@ class InterpBase:
             return caught
         self.raises.append({"exc": exc, "facts": facts, "where": self.loc(node), "func": self.cur_func(),
                             "stack": tuple(self.where), "kind": kind, "text": _txt(node), "caught": caught,
-                            "extra": extra})
+                            "extra": extra, "seq": next(self.evc), "pc": list(env.pc) + ([cond] if cond is not None else [])})
         return caught
 
     def fresh_sym(self, hint, ty=None):
@@ -161,8 +163,9 @@ class InterpBase:
 
     def _route_to_handler(self, exc, env, cond):
         for frame in reversed(self.try_stack):
-            for names, bucket in frame["handlers"]:
+            for hi, (names, bucket) in enumerate(frame["handlers"]):
                 if names is None or self.exc_matches(exc, names):
+                    frame.setdefault("excs", {}).setdefault(hi, []).append(exc)
                     snap = env.clone()
                     if cond is not None:
                         snap.add_fact(cond)
@@ -283,6 +286,13 @@ class InterpBase:
                 return sym(name, ty=ty)
             return self.new_object(ty, symbolic=True, root=name, path=name)
         return sym(name, ty=ty)
+
+    def next_oid(self):
+        """the id the next created object will get (ids are handed out in increasing order)"""
+        import itertools as _it
+        n = next(self.objc)
+        self.objc = _it.chain([n], self.objc)
+        return n
 
     def new_object(self, clsq, symbolic=False, root=None, path=None):
         oid = next(self.objc)
